@@ -11,6 +11,7 @@ published layouts drives real values created by a Rust static library built from
  kind 9 cb(C)  rows 'stop item..'       a callback BUILT BY C {context, func}, fed by Rust (feed_into)       -> count ; delivered ; not offered
  kind 10 it(C) rows 'n script..'        an iterator BUILT BY C {iter, func: 0 = item}, advanced by Rust       -> '1 v' / '0 0' per call
  kind 11 arc(C) row 'v n'               an arc BUILT BY C as a handle table (clone_fn returns a DISTINCT handle), cloned n times / read / released by Rust -> sum ; clone_fn runs ; drop_fn runs
+ kind 12 vec(C) row 'init n base'        a vector BUILT BY C (malloc'ed buffer, moving reserve_fn, recording drop_fn), pushed to n times and released by Rust -> length ; length handed to drop_fn ; drop_fn runs
  kind 8 sizes   sizeof/_Alignof of the C declarations vs size_of/align_of of the Rust types
 elem: 0 = 1 byte, 1 = 8 bytes (heap-owning token in vec, u64 elsewhere), 4 = 3-byte struct, 5 = 16-byte struct aligned to 16."""
 import os
@@ -71,6 +72,11 @@ def model_line(l):
         return vlib.case_line([15], [[0, 0, r[0], 3] + r[1:] for r in ops])
     if kind == 5 or kind == 10:
         return vlib.case_line([15], [[1, r[0]] + [0] * r[0] + r[1:] for r in ops])
+    if kind == 12:      # a vector built by C with `init` items, Rust pushes n more: the C11 model gives the length that drop_fn must be handed
+        if not ops or not ops[0]:
+            return "11 1 |"
+        init, n, base = ops[0][0] % 64, (ops[0][1] if len(ops[0]) > 1 else 0) % 2000, (ops[0][2] if len(ops[0]) > 2 else 1)
+        return vlib.case_line([11, 1], [[7, 0] + [1000 + i for i in range(init)]] + [[0, base + i] for i in range(n)] + [[8]])
     if kind == 11:      # an arc built by C: one creation in module 1, n clones (each of the latest handle), then every handle released (calls view of C10)
         if not ops or not ops[0]:
             return "210 |"
@@ -83,6 +89,13 @@ def model_line(l):
 
 def compare(l, impl_rows, model_rows):
     hdr, ops0 = vlib.parse_case(l)
+    if hdr[1] == 12:
+        try:
+            mr = [[int(x) for x in r.split()] for r in (model_rows or "").split(" ; ") if r.strip()]
+            ln = [r for r in mr if r and r[0] == 8][-1][1]
+        except Exception:
+            return impl_rows.strip() == ""
+        return impl_rows.strip() == "%d %d 1" % (ln, ln)
     if hdr[1] == 11:
         # model rows alternate [result] ; [runs of module 1's clone fn, runs of its drop fn]: their totals, and the value read through n+1 handles
         try:
@@ -129,6 +142,8 @@ def gen_cases(rng, tier):
                 cases.append("16 10 %d | %s" % (elem, " ".join(map(str, [nops] + sc))))        # the reverse direction: the iterator is built by C
     for nn in list(range(0, 9)) + [17, 64]:
         cases.append("16 11 0 | %d %d" % (rng.range(1, 10 ** 6), nn))
+        for init in (0, 1, 4, 7):
+            cases.append("16 12 0 | %d %d %d" % (init, nn, rng.range(1, 10 ** 6)))
     for _ in range(n):
         elem = rng.choice([0, 1, 4, 5])
         # vec scripts
